@@ -433,7 +433,7 @@ func c20Exec(op string) (string, *Violation) {
 	}
 	u := "-"
 	if len(rt.urls) > 0 {
-		u = hx(strings.TrimPrefix(rt.urls[0], "GET "))
+		u = hx(c20CanonURL(strings.TrimPrefix(rt.urls[0], "GET ")))
 	}
 	out := fmt.Sprintf("url=%s reqs=%d res=%s", u, len(rt.urls), res)
 
@@ -525,7 +525,7 @@ func c20Exec(op string) (string, *Violation) {
 		wantItems = append(wantItems, "include_discussion=true")
 	}
 	wantItems = append(wantItems, wantParams...)
-	if strings.Join(items, "&") != strings.Join(wantItems, "&") {
+	if c20DecodeItems(items) != c20DecodeItems(wantItems) {
 		return viol("wrong-query", "query %q, expected %q", rawq, strings.Join(wantItems, "&"))
 	}
 	// status mapping
@@ -611,7 +611,7 @@ func c20Gen(r *Rng, tier string, emit func(string)) {
 			data = strings.Join(s, ",")
 		}
 		if name == "NotesSearch" {
-			query = url.QueryEscape([]string{"spam", "two words", "a&b=c", "größe", "50%", "x/y?z"}[r.Intn(6)])
+			query = url.QueryEscape([]string{"spam", "two words", "a&b=c", "größe", "50%", "x/y?z", "a+b", "closed=-1&limit=9", "p;q #r"}[r.Intn(9)])
 		}
 		var os []string
 		switch doc.opt {
@@ -659,4 +659,41 @@ func c20Gen(r *Rng, tier string, emit func(string)) {
 			}
 		}
 	}
+}
+
+// c20DecodeItems gives the meaning of a query: the key/value pairs in order, each percent-decoded. How a byte is
+// escaped (%20 or + for a space, upper or lower case hex, an escaped letter) is free; what the server reads is not.
+func c20DecodeItems(items []string) string {
+	var b strings.Builder
+	for _, it := range items {
+		k, v := it, ""
+		if i := strings.Index(it, "="); i >= 0 {
+			k, v = it[:i], it[i+1:]
+		}
+		dk, err1 := url.QueryUnescape(k)
+		dv, err2 := url.QueryUnescape(v)
+		if err1 != nil || err2 != nil {
+			dk, dv = "!bad-escape:"+k, v
+		}
+		fmt.Fprintf(&b, "%q=%q&", dk, dv)
+	}
+	return b.String()
+}
+
+// c20CanonURL rewrites the free-text item of a request (q=) into the one escaped form the model prints, so that an
+// equivalent escaping is not a difference between model and code.
+func c20CanonURL(u string) string {
+	i := strings.Index(u, "?")
+	if i < 0 {
+		return u
+	}
+	items := strings.Split(u[i+1:], "&")
+	for k, it := range items {
+		if strings.HasPrefix(it, "q=") {
+			if d, err := url.QueryUnescape(it[2:]); err == nil && !strings.ContainsAny(it[2:], "=;") {
+				items[k] = "q=" + url.QueryEscape(d)
+			}
+		}
+	}
+	return u[:i+1] + strings.Join(items, "&")
 }
